@@ -240,6 +240,15 @@ func c05(c *h.Ctx) {
 		c.Case(fmt.Sprintf("bag/steps=%d", steps), model, true)
 	}
 
+	// 2b. trees that grow and change AFTER they were measured: a nested container reached through Get (or kept by
+	// the caller) gets new properties, a *String / *Number inside the tree is assigned in place, and after every
+	// step the root is measured and marshalled again — Size() must describe the tree as it is now, not as it was
+	// the last time somebody asked.
+	ninc := c.N(250, 5000)
+	for i := 0; i < ninc; i++ {
+		c05Incremental(c)
+	}
+
 	// 3. grammar-generated decodable byte strings (written directly, not by the library): repeated keys,
 	// empty keys, approximate ECMA counts, non-0/1 booleans, trailing bytes.
 	nwire := c.N(1500, 40000)
@@ -319,4 +328,102 @@ func forceBoolBytes(r *h.Rand, n *anode) {
 	for _, k := range n.kids {
 		forceBoolBytes(r, k)
 	}
+}
+
+func amfSetOn(a amf0.Amf0, k string, v amf0.Amf0) {
+	switch o := a.(type) {
+	case *amf0.Object:
+		o.Set(k, v)
+	case *amf0.EcmaArray:
+		o.Set(k, v)
+	case *amf0.StrictArray:
+		o.Set(k, v)
+	}
+}
+
+func amfGetFrom(a amf0.Amf0, k string) amf0.Amf0 {
+	switch o := a.(type) {
+	case *amf0.Object:
+		return o.Get(k)
+	case *amf0.EcmaArray:
+		return o.Get(k)
+	case *amf0.StrictArray:
+		return o.Get(k)
+	}
+	return nil
+}
+
+// c05Incremental: one tree built in several steps with observations (Size, MarshalBinary, a decode of the result)
+// between the steps. Every container, string and number that was ever put into the tree stays reachable to the
+// "application" and may be changed later, wherever it sits.
+func c05Incremental(c *h.Ctx) {
+	r := c.R
+	var root amf0.Amf0
+	switch r.Intn(3) {
+	case 0:
+		root = amf0.NewObject()
+	case 1:
+		root = amf0.NewEcmaArray()
+	default:
+		root = amf0.NewStrictArray()
+	}
+	type slot struct {
+		parent amf0.Amf0
+		key    string
+		val    amf0.Amf0
+	}
+	conts := []slot{{nil, "", root}}
+	var strs []*amf0.String
+	var nums []*amf0.Number
+	keys := []string{"a", "b", "duration", "width", "x", "meta", "k", strings.Repeat("k", r.Pick(126, 127, 128, 129, 130, 255, 256))}
+	steps := 2 + r.Intn(9)
+	nodes := 1
+	for j := 0; j < steps; j++ {
+		switch k := r.Intn(10); {
+		case k < 6: // a new property (or a replaced one) somewhere in the tree
+			at := conts[r.Intn(len(conts))]
+			target := at.val
+			if at.parent != nil && r.Bool() {
+				// reach the container the way an application holding only the root would
+				if x := amfGetFrom(at.parent, at.key); x != nil {
+					target = x
+				}
+			}
+			key := keys[r.Intn(len(keys))]
+			var v amf0.Amf0
+			switch r.Intn(6) {
+			case 0:
+				v = amf0.NewObject()
+			case 1:
+				v = amf0.NewEcmaArray()
+			case 2, 3:
+				sv := amf0.NewString([]string{"", "oryx", "onMetaData", strings.Repeat("s", r.Intn(300))}[r.Intn(4)])
+				strs, v = append(strs, sv), sv
+			case 4:
+				nv := amf0.NewNumber(float64(r.Intn(1000)))
+				nums, v = append(nums, nv), nv
+			default:
+				v = [](func() amf0.Amf0){func() amf0.Amf0 { return amf0.NewNull() }, amf0.NewUndefined, func() amf0.Amf0 { return amf0.NewBoolean(true) }}[r.Intn(3)]()
+			}
+			amfSetOn(target, key, v)
+			nodes++
+			if _, _, ok := amf0.VerifProps(v); ok {
+				conts = append(conts, slot{target, key, v})
+			}
+		case k < 8 && len(strs) > 0: // a string somewhere in the tree assigned in place
+			*strs[r.Intn(len(strs))] = amf0.String(strings.Repeat("z", r.Pick(0, 1, 5, 40, 300)))
+		case len(nums) > 0:
+			*nums[r.Intn(len(nums))] = amf0.Number(float64(r.Intn(1 << 20)))
+		default:
+			continue
+		}
+		// observe after most steps (an unobserved step followed by an observed one is a case of its own)
+		if r.Chance(75) {
+			if len(conts) > 1 && r.Bool() {
+				_ = conts[r.Intn(len(conts))].val.Size()
+			}
+			c05Tree(c, fmt.Sprintf("incremental/step=%d", j), root, nodes)
+		}
+	}
+	c05Tree(c, "incremental/final", root, nodes)
 }
